@@ -26,7 +26,7 @@ def run(rep, kf, tier, seed):
     engine_b.discharge(rep, kf, [crm.propagate_contract(), pcf.conflicts_contract()], "C01", tier, seed)
     # O3/O4/O7: declaration layout, import closure, metadata, on the schematic family
     cl.import_closure_obligations(rep, "C01")
-    run_bounded(rep, kf, "C01", ["removal_closure", "param_conflicts"], tier)
+    run_bounded(rep, kf, "C01", ["removal_closure", "param_conflicts", "signature_order"], tier)
     rep.trusted.extend(["pyvc Engines A/B as for C05/C09/C08", "CPython's compiler/importer as the judge of importability on the "
                         "schematic family"])
     rep.assumptions.extend([
